@@ -80,9 +80,9 @@ def to_coq_case(rec):
     pc = _PC[i["pc"] if 0 <= i["pc"] <= 2 else 0]
     value = int(i["value"]) if i["kind"] in ("top", "tx", "call", "callcode") else 0
     return ("{| c_reached := %s; c_pc := %s; c_kind := %s; c_value := %s; c_gas := %s; c_inp := %s; "
-            "o_class := %s; o_left := %s; o_state_eq := %s; o_core_eq := %s; o_oog_panic := %s; o_mint_panic := %s |}") % (
+            "o_class := %s; o_left := %s; o_state_eq := %s; o_core_eq := %s; o_oog_panic := %s; o_cost := %s; o_mint_panic := %s |}") % (
         _b(o["reached"]), pc, _KIND.get(i["kind"], "KTop"), _z(value), _z(o["fwd"]), inp,
-        _CLASS.get(o["class"], "Err"), _z(o["left"]), _b(o["state_eq"]), _b(o["core_eq"]), _b(o["panic_oog"]), _b(o.get("panic_int")))
+        _CLASS.get(o["class"], "Err"), _z(o["left"]), _b(o["state_eq"]), _b(o["core_eq"]), _b(o["panic_oog"]), ("(Some %s)" % _z(o["cost"])) if o.get("cost") else "None", _b(o.get("panic_int")))
 
 
 def nontrivial(rec):
@@ -143,6 +143,9 @@ def signature(rec):
         return {"kind": "failed-call-left-state", "precompile": pc, "method": o.get("method"), "call": i["kind"]}
     if o["left"] > o["fwd"]:
         return {"kind": "gas-exceeds-forwarded", "precompile": pc, "method": o.get("method")}
+    if o["class"] == "ok" and o.get("cost") and o["fwd"] - o["left"] != int(o["cost"]):
+        return {"kind": "gas-charged-differs-from-consumed", "precompile": pc, "method": o.get("method"),
+                "below_cost": o["fwd"] < int(o["cost"])}
     return {"kind": "query-changed-state", "precompile": pc, "method": o.get("method"), "call": i["kind"]}
 
 
